@@ -290,6 +290,12 @@ def JudgeShard(path, tag):
 
 
 _JOBS = {}  # source name -> getter(lo, hi); set before forking
+_RUN_ID = 'run%d' % os.getpid()  # inherited by the forked workers
+
+
+def _TraceDir():
+  """Per-run scratch directory (concurrent runs must not share shard files)."""
+  return common.BuildDir('trace', PROP, _RUN_ID)
 
 
 def _ShardWork(job):
@@ -303,8 +309,7 @@ def _ShardWork(job):
     got = _JOBS[source](lo, hi)
     per_source[source] = [len(got), 0]
     cases.extend(got)
-  d = common.BuildDir('trace', PROP)
-  path = os.path.join(d, name + '.ndjson')
+  path = os.path.join(_TraceDir(), name + '.ndjson')
   WriteShard(ra, cases, path, per_source)
   res = JudgeShard(path, PROP + '_' + name)
   styles = {}
@@ -658,10 +663,12 @@ def Execute(plan, tier):
       if hi > lo:
         parts.append((source, lo, hi))
     jobs.append(('shard_%03d' % s, parts))
-  d = common.BuildDir('trace', PROP)
-  for f in os.listdir(d):
-    os.unlink(os.path.join(d, f))
-  return common.ParallelMap(_ShardWork, jobs, chunksize=1)
+  results = common.ParallelMap(_ShardWork, jobs, chunksize=1)
+  try:
+    os.rmdir(_TraceDir())      # only shards of failing cases are kept
+  except OSError:
+    pass
+  return results
 
 
 def Sample(ra, c):
@@ -858,10 +865,14 @@ def Replay(path):
     payload = json.load(f)
   case = payload['case']
   ra = Algebra()
-  d = common.BuildDir('trace', PROP)
-  shard = os.path.join(d, 'replay_%s.ndjson' % common.Sha(case))
+  shard = os.path.join(_TraceDir(), 'replay_%s.ndjson' % common.Sha(case))
   WriteShard(ra, [case], shard)
   res = JudgeShard(shard, PROP + '_replay')
+  try:
+    os.unlink(shard)
+    os.rmdir(_TraceDir())
+  except OSError:
+    pass
   print('case %s [%s] %s' % (case['id'], case['style'],
                              ' ~ '.join(Show(t) for t in case['terms'])))
   for r in RunCase(ra, case):
